@@ -85,6 +85,7 @@ impl Drop for InProg {
     fn drop(&mut self) {
         unsafe {
             H.state_dropped += 1;
+            mt::G.handle_closed = true;
             assert!(H.resolved, "in-progress state (handle) dropped before the operation resolved");
             assert!(
                 !mt::registered_anywhere(H.handle),
@@ -440,6 +441,36 @@ c18!(c18_two_v2v2_pa_pb_e_pb, two, Some(2), Some(2), [P B P E P], cov_ab_eb);
 c18!(c18_two_v2v2_pa_pb_da, two, Some(2), Some(2), [P B P A], cov_ab_cancel);
 c18!(c18_two_v2v2_pa_db, two, Some(2), Some(2), [P B], cov_db);
 c18!(c18_two_v2v2_pa_pb_pa_d, two, Some(2), Some(2), [P B P A P], cov_ab_cancel);
+
+// a NON-FINAL event (PROGRESS, like a subtask's STARTED) is delivered and
+// re-polled under task A -- unregister by delivery, re-registration with the
+// SAME task -- and only then, still pending, the operation moves to task B
+fn cov_a_e_a_b() {
+    unsafe {
+        kani::cover!(
+            mt::L[0].n_delivered == 1 && mt::L[0].n_register == 2 && mt::L[1].n_register == 1 && H.cancel_calls == 1 && !mt::G.clone_distinct,
+            "PROGRESS re-polled under A (same-pointer clone: task kept), moved to B, cancelled"
+        );
+        kani::cover!(mt::L[0].n_delivered == 1 && mt::L[0].n_register == 1 && H.cancel_calls == 0, "DONE delivered by A: completed under A");
+    }
+}
+fn cov_a_e_a_b_e_b() {
+    unsafe {
+        kani::cover!(
+            mt::L[0].n_delivered == 1 && mt::L[0].n_register == 2 && mt::L[1].n_delivered == 1 && H.cancel_calls == 0,
+            "PROGRESS under A, moved to B, DONE delivered by B and polled"
+        );
+    }
+}
+fn cov_a_e_a_db() {
+    unsafe {
+        kani::cover!(mt::L[0].n_delivered == 1 && mt::L[0].n_register == 2 && mt::L[1].n_register == 0 && H.cancel_calls == 1, "PROGRESS re-polled under A, dropped while B is current");
+    }
+}
+c18!(c18_two_v2v2_pa_e_pa_pb_d, two, Some(2), Some(2), [P E P B P], cov_a_e_a_b);
+c18!(c18_two_v2v1_pa_e_pa_pb_d, two, Some(2), Some(1), [P E P B P], cov_a_e_a_b);
+c18!(c18_two_v2v2_pa_e_pa_pb_e_pb, two, Some(2), Some(2), [P E P B P E P], cov_a_e_a_b_e_b);
+c18!(c18_two_v2v2_pa_e_pa_db, two, Some(2), Some(2), [P E P B], cov_a_e_a_db);
 
 // two tasks where one of them only speaks the v1 C ABI (no clone/drop, so the
 // runtime cannot keep a reference to the task it registered with)
